@@ -553,7 +553,7 @@ impl Check for C10 {
          float row/column/return, lone return/invalid-state/colour record, duplicate record, min > max, all records fixed, unregistered / malformed / \
          empty extension names, prototypes of 1000..33000 records, empty prototype, NaN / inverted float bounds, integer azimuth); value vectors that \
          fit, are out of range (min-1, max+1, i64 extremes), mistyped or of wrong arity; extension prefixes from valid and invalid alphabets, \
-         duplicates; images without representation or with a second projection; abandoned point cloud and image writers; empty GUIDs; failing XML \
+         duplicates; extension URIs that are registered already, reserved by XML, equal to the standard's namespace or empty; images without representation or with a second projection; abandoned point cloud and image writers; empty GUIDs; failing XML \
          transformer; dropped writer. Runs in a worker process (watchdog 20 s). Oracle: no panic / abort / hang; a call that the documented rules \
          oblige to fail (wrong arity/type, integer outside minimum..maximum, rule-breaking prototype, malformed / unregistered / duplicate \
          extension name) must not return Ok; whenever finalize succeeded the file opens and reads back exactly the accepted point clouds (points \
@@ -570,8 +570,20 @@ impl Check for C10 {
         for k in 0..s.weighted(&[3, 4, 2]) {
             let prefix = if s.chance(1, 3) { s.pick(&BAD_NAMES).to_string() } else { gen::ext_name(s) };
             prefixes.push(prefix.clone());
-            // one URI per registration: two prefixes bound to one URI are the same XML namespace
-            let url = gen::ext_url(s, &format!("ns{k}"));
+            // normally one URI per registration; 1 in 6 a URI that cannot work: one that is registered already, the
+            // namespace of the standard itself, the two URIs XML reserves, the empty string (the call may refuse it;
+            // if it accepts it, everything must still read back exactly)
+            let url = if s.chance(1, 6) {
+                match s.below(5) {
+                    0 => ops.iter().rev().find_map(|o| if let XOp::Ext { url, .. } = o { Some(url.clone()) } else { None }).unwrap_or_else(|| "urn:first".to_string()),
+                    1 => "http://www.astm.org/COMMIT/E57/2010-e57-v1.0".to_string(),
+                    2 => "http://www.w3.org/XML/1998/namespace".to_string(),
+                    3 => "http://www.w3.org/2000/xmlns/".to_string(),
+                    _ => String::new(),
+                }
+            } else {
+                gen::ext_url(s, &format!("ns{k}"))
+            };
             ops.push(XOp::Ext { prefix, url });
         }
         for _ in 0..1 + s.below(4) {
